@@ -440,7 +440,22 @@ def opstr(op):
         if isinstance(x, (tuple, list)):
             return '[' + ','.join(s(y) for y in x) + ']'
         return str(x).replace(' ', '_') if isinstance(x, str) else repr(x)
-    return op[0] + '(' + ','.join(s(x) for x in op[1:]) + ')'
+    txt = op[0] + '(' + ','.join(s(x) for x in op[1:]) + ')'
+    if len(txt) > 150:     # large random operands: keep the key / message short but still specific
+        import hashlib
+        txt = txt[:110] + '...#' + hashlib.md5(txt.encode()).hexdigest()[:10] + ')'
+    return txt
+
+
+def jsonable(x, n=24):
+    """Operation descriptor for `input`; very long operand lists (random part C) are truncated, the
+    case is regenerated from input['initial'] = {geometry, seed, index}."""
+    if isinstance(x, (list, tuple)):
+        y = [jsonable(e, n) for e in x[:n]]
+        if len(x) > n:
+            y.append('... %d more' % (len(x) - n))
+        return y
+    return x
 
 
 class Stats(object):
@@ -456,7 +471,7 @@ class Stats(object):
         self.per_contract[name] = self.per_contract.get(name, 0) + n
 
     def failure(self, key, what, history, init):
-        inp = {'initial': init, 'history': [list(o) for o in history]}
+        inp = {'initial': init, 'history': [jsonable(o) for o in history]}
         old = self.fail.get(key)
         if old is None or old[0] > len(history):
             self.fail[key] = (len(history), {'key': key, 'what': what, 'input': inp})
